@@ -65,21 +65,21 @@ Proof.
     destruct (union_nat_in _ _ _ H1) as [H2|H2]; [right; now exists c, w|now left].
 Qed.
 
-Record diffs_ok (g : sgraph) (m : list (nat * list nat)) : Prop := {
+Record diffs_ok (F : nat -> Prop) (g : sgraph) (m : list (nat * list nat)) : Prop := {
   do_alive : forall k v, lookup_set m k = Some v -> sg_alive g k = true;
   do_lit : forall k v l, lookup_set m k = Some v -> sg_label g k = Some (GLit l) -> v = [Z.abs_nat l];
-  do_pos : forall k v f, lookup_set m k = Some v -> In f v -> 1 <= f
+  do_pos : forall k v f, lookup_set m k = Some v -> In f v -> F f
 }.
 
-Lemma lit_diffs_body_ok g m nx m' :
-  (forall z l, sg_label g z = Some (GLit l) -> l <> 0%Z) ->
-  diffs_ok g m -> lit_diffs_body g m nx = Some m' -> diffs_ok g m'.
+Lemma lit_diffs_body_ok (F : nat -> Prop) g m nx m' :
+  (forall z l, sg_label g z = Some (GLit l) -> F (Z.abs_nat l)) ->
+  diffs_ok F g m -> lit_diffs_body g m nx = Some m' -> diffs_ok F g m'.
 Proof.
   intros Hpos [H1 H2 H3] H. unfold lit_diffs_body in H.
   destruct (sg_label g nx) as [t|] eqn:Hl; [|discriminate].
   assert (Ha : sg_alive g nx = true) by (unfold sg_alive; now rewrite Hl).
-  assert (Hgen : forall v, (forall f, In f v -> 1 <= f) -> (forall l, t = GLit l -> v = [Z.abs_nat l]) ->
-                 diffs_ok g ((nx, v) :: m)).
+  assert (Hgen : forall v, (forall f, In f v -> F f) -> (forall l, t = GLit l -> v = [Z.abs_nat l]) ->
+                 diffs_ok F g ((nx, v) :: m)).
   { intros v Hv Hlit. constructor.
     - intros k w. rewrite lookup_set_cons. destruct (Nat.eqb_spec nx k) as [<-|Hne]; [intros _; exact Ha|apply H1].
     - intros k w l. rewrite lookup_set_cons. destruct (Nat.eqb_spec nx k) as [<-|Hne]; [|apply H2].
@@ -88,7 +88,7 @@ Proof.
       intros E Hf. injection E as <-. now apply Hv. }
   destruct t as [l| | | |].
   - injection H as <-. apply Hgen.
-    + intros f [<-|[]]. pose proof (Hpos nx l Hl). lia.
+    + intros f [<-|[]]. exact (Hpos nx l Hl).
     + intros l' E. now injection E as <-.
   - destruct (union_children m (sg_out g nx) []) as [v|] eqn:E; [|discriminate]. injection H as <-.
     apply Hgen; [|discriminate]. intros f Hf.
@@ -100,13 +100,13 @@ Proof.
   - injection H as <-. apply Hgen; [intros f []|discriminate].
 Qed.
 
-Lemma get_literal_diffs_ok g root m :
-  (forall z l, sg_label g z = Some (GLit l) -> l <> 0%Z) ->
-  get_literal_diffs g root = Some m -> diffs_ok g m.
+Lemma get_literal_diffs_ok (F : nat -> Prop) g root m :
+  (forall z l, sg_label g z = Some (GLit l) -> F (Z.abs_nat l)) ->
+  get_literal_diffs g root = Some m -> diffs_ok F g m.
 Proof.
   intros Hpos H. unfold get_literal_diffs in H.
-  apply (dfs_fold_invariant _ _ (diffs_ok g)) in H; [exact H| |].
-  - intros m1 x m2 Hm Hb. now apply (lit_diffs_body_ok g m1 x m2).
+  apply (dfs_fold_invariant _ _ (diffs_ok F g)) in H; [exact H| |].
+  - intros m1 x m2 Hm Hb. now apply (lit_diffs_body_ok F g m1 x m2).
   - constructor; intros; discriminate.
 Qed.
 
@@ -251,6 +251,14 @@ Proof.
   apply in_app_or in Hcv. apply in_or_app. destruct Hcv as [Hcv|Hcv]; [now left|right; now right].
 Qed.
 
+Lemma diff_go_fst post : forall pre c ms, In (c, ms) (diff_go pre post) -> In c (map fst post).
+Proof.
+  induction post as [|[c0 s0] r IH]; intros pre c ms H; cbn [diff_go] in H; [destruct H|].
+  destruct (canon_set _) as [|m0 ms0].
+  - right. exact (IH _ _ _ H).
+  - destruct H as [H|H]; [injection H as <- _; now left|right; exact (IH _ _ _ H)].
+Qed.
+
 Lemma children_diff_spec m : forall cs cd, children_diff m cs = Some cd ->
   map fst cd = cs /\ Forall (fun cv => lookup_set m (fst cv) = Some (snd cv)) cd.
 Proof.
@@ -274,26 +282,73 @@ Qed.
 Section Balance.
 Variables (rc : bool) (ord : list nat -> list nat).
 Hypothesis Hord : forall l f, In f (ord l) -> In f l.
+Context {P : Z -> Prop} {st : bool}.
+Hypothesis Pnz : forall l, P l -> l <> 0%Z.
+Hypothesis Psym : forall l, P l -> P (- l)%Z.
+
+(* what is known about a feature |l| of a literal leaf *)
+Definition FOK (f : nat) : Prop := 1 <= f /\ @PF P f.
+
+Lemma P_abs l : P l -> FOK (Z.abs_nat l).
+Proof.
+  intros H. pose proof (Pnz l H). split; [lia|]. unfold PF. rewrite Zabs2Nat.id_abs.
+  destruct (Z.abs_spec l) as [[_ ->]|[_ ->]]; [split; [exact H|now apply Psym]|].
+  split; [now apply Psym|]. now rewrite Z.opp_involutive.
+Qed.
 
 Definition not_in_table (s : lstate) (nx : nat) : Prop :=
   forall f o, lookup_nat (ls_tri s) f = Some o -> o <> nx.
 
-Lemma balance_spec nx : forall children s s',
-  tables_ok s -> sg_label (ls_g s) nx = Some GOr -> not_in_table s nx ->
-  (forall c ms f, In (c, ms) children -> In f ms -> 1 <= f) ->
-  balance_or_children rc ord nx children s = Some s' ->
-  tables_ok s' /\ ext (ls_g s) (ls_g s') [nx] /\
-  subst_rel (ls_g s') nx (sg_out (ls_g s) nx) (sg_out (ls_g s') nx).
+Definition removes (cs l : list nat) : list nat := fold_left (fun l c => remove1 c l) cs l.
+
+(* a balancing node: And(child, one triangle of the table per missing feature) *)
+Definition balS (s : lstate) (an c : nat) (ms : list nat) : Prop :=
+  sg_label (ls_g s) an = Some GAnd /\
+  exists tris, sg_out (ls_g s) an = tris ++ [c] /\
+    Forall2 (fun f o => lookup_nat (ls_tri s) f = Some o) (rev (ord ms)) tris.
+
+(* what balance_or_children did, exactly *)
+Definition bstruct (s s' : lstate) (nx : nat) (children : list (nat * list nat)) : Prop :=
+  exists ans, lprov s s' ans /\ tri_grow s s' /\
+    Forall2 (fun an cm => sg_alive (ls_g s) an = false /\ balS s' an (fst cm) (snd cm)) ans children /\
+    sg_out (ls_g s') nx = rev ans ++ removes (map fst children) (sg_out (ls_g s) nx).
+
+Lemma add_literal_nodes_S at_ : forall fs s s', add_literal_nodes rc fs at_ s = Some s' ->
+  lprov s s' [] /\ tri_grow s s'.
 Proof.
-  induction children as [|[child missing] r IH]; intros s s' Hok Hnx Hnt Hpos H; cbn [balance_or_children] in H.
-  - injection H as <-. split; [exact Hok|]. split; [apply ext_refl|constructor].
+  induction fs as [|f r IH]; intros s s' H; cbn [add_literal_nodes] in H.
+  - injection H as <-. split; [apply lprov_refl|apply tri_grow_refl].
+  - destruct (add_literal_node rc f at_ s) as [s1|] eqn:E1; [|discriminate].
+    destruct (add_literal_node_S rc _ _ _ _ E1) as [P1 G1]. destruct (IH _ _ H) as [P2 G2].
+    split; [exact (lprov_trans _ _ _ [] [] P1 P2 G2)|exact (tri_grow_trans _ _ _ G1 G2)].
+Qed.
+
+Lemma removes_cons_notin cs : forall a l, ~ In a cs -> removes cs (a :: l) = a :: removes cs l.
+Proof.
+  induction cs as [|c cs IH]; intros a l Hn; [reflexivity|]. cbn [removes fold_left remove1].
+  destruct (Nat.eqb_spec a c) as [->|Hne]; [exfalso; apply Hn; now left|].
+  apply (IH a (remove1 c l)). intros Hin. apply Hn. now right.
+Qed.
+
+Lemma balance_spec nx : forall children s s',
+  tables_ok P st s -> sg_label (ls_g s) nx = Some GOr -> not_in_table s nx ->
+  (forall c ms f, In (c, ms) children -> In f ms -> FOK f) ->
+  (forall c ms, In (c, ms) children -> sg_alive (ls_g s) c = true) ->
+  balance_or_children rc ord nx children s = Some s' ->
+  tables_ok P st s' /\ ext (ls_g s) (ls_g s') [nx] /\
+  subst_rel (ls_g s') nx (sg_out (ls_g s) nx) (sg_out (ls_g s') nx) /\
+  bstruct s s' nx children.
+Proof.
+  induction children as [|[child missing] r IH]; intros s s' Hok Hnx Hnt Hpos Hcal H; cbn [balance_or_children] in H.
+  - injection H as <-. split; [exact Hok|]. split; [apply ext_refl|]. split; [constructor|].
+    exists []. split; [apply lprov_refl|]. split; [apply tri_grow_refl|]. split; [constructor|reflexivity].
   - destruct (add_node rc GAnd (ls_g s)) as [an g1] eqn:Ha.
     destruct (negb (mem child (sg_out g1 nx))) eqn:Hmem; [discriminate|].
     set (s1 := with_g s (remove_edge nx child g1)) in H.
     destruct (ls_add_edge nx an s1) as [s2|] eqn:E2; [|discriminate].
     destruct (ls_add_edge an child s2) as [s3|] eqn:E3; [|discriminate].
     destruct (add_literal_nodes rc (ord missing) an s3) as [s4|] eqn:E4; [|discriminate].
-    destruct Hok as [[HI Hl Hp] Ht].
+    destruct Hok as [[HI Hl Hp Hj Hsr] Ht].
     set (g := ls_g s) in *.
     assert (Hax : sg_alive g nx = true) by (unfold sg_alive; now rewrite Hnx).
     pose proof (add_node_fresh rc _ _ _ _ HI Ha) as Hfresh.
@@ -308,19 +363,22 @@ Proof.
     assert (He1 : ext g (ls_g s1) [nx]).
     { apply (ext_trans _ g1); [exact (ext_weaken _ _ [] _ (fun y Hy => match Hy with end) He01)|].
       apply remove_edge_ext. now left. }
-    assert (Hc1 : core_ok s1).
+    assert (Hc1 : core_ok P st s1).
     { constructor; cbn [s1 with_g ls_g ls_lits ls_tri].
       - apply remove_edge_Inv, (add_node_Inv rc _ _ _ _ HI Ha).
       - intros l z Hz. rewrite remove_edge_label. apply (ext_label_some _ _ _ _ _ He01). now apply Hl.
       - intros z l Hz. rewrite remove_edge_label in Hz. destruct (Nat.eq_dec z an) as [->|Hza]; [congruence|].
-        rewrite (add_node_label_old rc _ _ _ _ Ha z Hza) in Hz. now apply (Hp z). }
+        rewrite (add_node_label_old rc _ _ _ _ Ha z Hza) in Hz. now apply (Hp z).
+      - intros z l Hz. rewrite remove_edge_label in Hz. destruct (Nat.eq_dec z an) as [->|Hza]; [congruence|].
+        rewrite (add_node_label_old rc _ _ _ _ Ha z Hza) in Hz. now apply (Hj z).
+      - intros Hst. apply remove_edge_srcs. exact (add_node_srcs rc _ _ _ _ HI Ha (Hsr Hst)). }
     assert (Ho1 : sg_out (ls_g s1) nx = remove1 child (sg_out g nx)).
     { cbn [s1 with_g ls_g]. rewrite remove_edge_out_same. now rewrite (add_node_out rc _ _ _ _ Ha). }
     assert (Han1' : sg_out (ls_g s1) an = []).
     { cbn [s1 with_g ls_g]. rewrite remove_edge_out_other by exact Hne. exact Han1. }
     assert (Hlan1' : sg_label (ls_g s1) an = Some GAnd) by exact Hlan1.
-    destruct (ls_add_edge_core nx an s1 s2 [nx] Hc1 (or_introl eq_refl) E2) as [Hc2 [He12 [Htri2 [_ Ho2]]]].
-    destruct (ls_add_edge_core an child s2 s3 [an] Hc2 (or_introl eq_refl) E3) as [Hc3 [He23 [Htri3 [_ Ho3]]]].
+    destruct (ls_add_edge_core nx an s1 s2 [nx] Hc1 (or_introl eq_refl) (fun _ => gate_at_ext _ _ _ _ He1 (gate_or _ _ Hnx)) E2) as [Hc2 [He12 [Htri2 [_ Ho2]]]].
+    destruct (ls_add_edge_core an child s2 s3 [an] Hc2 (or_introl eq_refl) (fun _ => gate_at_ext _ _ _ _ He12 (gate_and _ _ Hlan1')) E3) as [Hc3 [He23 [Htri3 [_ Ho3]]]].
     assert (Hlan3 : sg_label (ls_g s3) an = Some GAnd)
       by exact (ext_label_some _ _ _ _ _ He23 (ext_label_some _ _ _ _ _ He12 Hlan1')).
     assert (He03 : ext g (ls_g s3) [nx]).
@@ -332,7 +390,7 @@ Proof.
     assert (Ht3 : tris_ok s3).
     { intros f o Hfo. rewrite Htri3, Htri2 in Hfo. cbn [s1 with_g ls_tri] in Hfo.
       apply (tri_node_ext _ _ [nx] f o He03); [|now apply Ht]. intros [E|[]]. now apply (Hnt f o). }
-    destruct (add_literal_nodes_spec rc an (ord missing) s3 s4 (conj Hc3 Ht3)) as [Hok4 [He34 [Hor34 [tris [Ho4 Htris]]]]];
+    destruct (add_literal_nodes_spec rc an (ord missing) s3 s4 (conj Hc3 Ht3)) as [Hok4 [He34 [Hor34 [tris [Ho4 [Htris Hfeat]]]]]];
       [|exact Hlan3|exact E4|].
     { apply Forall_forall. intros f Hf. apply (Hpos child missing f); [now left|now apply Hord]. }
     (* facts about s4 *)
@@ -362,12 +420,38 @@ Proof.
     { intros f o Hfo. destruct (Hor34 f o Hfo) as [H3|H3].
       - rewrite Htri3, Htri2 in H3. now apply (Hnt f o).
       - intros ->. congruence. }
-    destruct (IH s4 s' Hok4 (ext_label_some _ _ _ _ _ He04 Hnx) Hnt4) as [Hok' [He4' Hs4']]; [|exact H|].
+    destruct (IH s4 s' Hok4 (ext_label_some _ _ _ _ _ He04 Hnx) Hnt4) as [Hok' [He4' [Hs4' [ansr [Pr [Gr [Fr Or]]]]]]]; [| |exact H|].
     { intros c ms f Hin. apply (Hpos c ms f). now right. }
+    { intros c ms Hin. apply (ext_alive _ _ _ _ He04). apply (Hcal c ms). now right. }
     split; [exact Hok'|]. split; [exact (ext_trans _ _ _ _ He04 He4')|].
-    apply (subst_rel_trans _ _ _ (sg_out (ls_g s4) nx)); [|exact Hs4'].
-    apply (subst_rel_ext (ls_g s4)); [exact He4'|]. rewrite Hnx4.
-    constructor; [constructor|exact Hchild|exact Hbal].
+    split.
+    { apply (subst_rel_trans _ _ _ (sg_out (ls_g s4) nx)); [|exact Hs4'].
+      apply (subst_rel_ext (ls_g s4)); [exact He4'|]. rewrite Hnx4.
+      constructor; [constructor|exact Hchild|exact Hbal]. }
+    (* the exact description *)
+    destruct (ls_add_edge_S _ _ _ _ E2) as [L2 T2]. destruct (ls_add_edge_S _ _ _ _ E3) as [L3 T3].
+    destruct (add_literal_nodes_S an _ _ _ E4) as [P34 G34].
+    assert (P03 : lprov s s3 [an]).
+    { intros y t Hy. rewrite L3, L2 in Hy. cbn [s1 with_g ls_g] in Hy. rewrite remove_edge_label in Hy.
+      destruct (add_node_label_cases rc _ _ _ _ _ _ Ha Hy) as [[-> ->]|[_ H0]]; [|now left].
+      right. right. right. split; [reflexivity|now left]. }
+    assert (G03 : tri_grow s s3) by (apply tri_grow_eq; rewrite T3, T2; reflexivity).
+    exists (an :: ansr). split; [|split; [|split]].
+    + exact (lprov_trans _ _ _ _ _ (lprov_trans _ _ _ _ _ P03 P34 G34) Pr Gr).
+    + exact (tri_grow_trans _ _ _ (tri_grow_trans _ _ _ G03 G34) Gr).
+    + constructor.
+      * split; [exact Hand|]. cbn [fst snd]. split; [exact (ext_label_some _ _ _ _ _ He4' (ext_label_some _ _ _ _ _ He34 Hlan3))|].
+        exists tris. split.
+        -- rewrite (ex_out _ _ _ He4' an); [now rewrite Ho4, Han3| |intros [E|[]]; congruence].
+           unfold sg_alive. now rewrite (ext_label_some _ _ _ _ _ He34 Hlan3).
+        -- eapply Forall2_impl; [|exact Hfeat]. intros f o Hfo. now apply Gr.
+      * eapply Forall2_impl; [|exact Fr]. intros a cm [Ha4 Hb4]. split; [|exact Hb4].
+        change (sg_alive g a = false). destruct (sg_alive g a) eqn:E; [|reflexivity]. now rewrite (ext_alive _ _ _ _ He04 E) in Ha4.
+    + rewrite Or, Hnx4. cbn [map fst rev removes fold_left].
+      rewrite removes_cons_notin.
+      * fold (removes (map fst r) (remove1 child (sg_out g nx))). now rewrite <- app_assoc.
+      * intros Hin. apply in_map_iff in Hin. destruct Hin as [[c ms] [Ec Hin]]. cbn [fst] in Ec. subst c.
+        rewrite (Hcal an ms (or_intror Hin)) in Hand. discriminate.
 Qed.
 
 (* ---------- the body of the third traversal ---------- *)
@@ -398,13 +482,22 @@ Proof.
   congruence.
 Qed.
 
-Lemma pass3_body_spec g0 m s nx s' :
-  diffs_ok g0 m -> tables_ok s -> grow g0 (ls_g s) ->
-  pass3_body rc ord m s nx = Some s' -> tables_ok s' /\ grow (ls_g s) (ls_g s').
+(* what one iteration of the third traversal does *)
+Definition p3step (m : list (nat * list nat)) (s s' : lstate) (nx : nat) : Prop :=
+  (s' = s /\ sg_label (ls_g s) nx <> Some GOr) \/
+  (s' = s /\ sg_label (ls_g s) nx = Some GOr /\ in_tab s nx) \/
+  (sg_label (ls_g s) nx = Some GOr /\ not_in_table s nx /\ tables_ok P st s' /\
+   ext (ls_g s) (ls_g s') [nx] /\
+   subst_rel (ls_g s') nx (sg_out (ls_g s) nx) (sg_out (ls_g s') nx) /\
+   exists cd, children_diff m (sg_out (ls_g s) nx) = Some cd /\ bstruct s s' nx (diff_go [] cd)).
+
+Lemma pass3_body_step g0 m s nx s' :
+  diffs_ok FOK g0 m -> tables_ok P st s -> grow g0 (ls_g s) ->
+  pass3_body rc ord m s nx = Some s' -> p3step m s s' nx.
 Proof.
   intros Hm Hok Hg H. unfold pass3_body in H.
   destruct (sg_label (ls_g s) nx) as [t|] eqn:Hnx; [|discriminate].
-  destruct t; try (injection H as <-; split; [exact Hok|apply grow_refl]).
+  destruct t; try (injection H as <-; left; split; [reflexivity|congruence]).
   destruct (children_diff m (sg_out (ls_g s) nx)) as [cd|] eqn:Ecd; [|discriminate].
   destruct (children_diff_spec m _ cd Ecd) as [Hfst Hcd].
   destruct (in_table (ls_tri s) nx) eqn:Etab.
@@ -416,29 +509,110 @@ Proof.
     injection Hfst as -> ->.
     inversion Hcd as [|? ? Hn Hcd']; subst. inversion Hcd' as [|? ? Hp _]; subst. cbn [fst snd] in Hn, Hp.
     assert (Hvn : vn = [f]).
-    { pose proof (do_alive _ _ Hm n vn Hn) as Han.
-      rewrite (do_lit _ _ Hm n vn (- Z.of_nat f)%Z Hn); [now rewrite abs_nat_opp_of_nat|].
+    { pose proof (do_alive _ _ _ Hm n vn Hn) as Han.
+      rewrite (do_lit _ _ _ Hm n vn (- Z.of_nat f)%Z Hn); [now rewrite abs_nat_opp_of_nat|].
       rewrite <- (gr_label _ _ Hg n Han). exact Hln. }
     assert (Hvp : vp = [f]).
-    { pose proof (do_alive _ _ Hm p vp Hp) as Hap.
-      rewrite (do_lit _ _ Hm p vp (Z.of_nat f) Hp); [now rewrite Zabs2Nat.id|].
+    { pose proof (do_alive _ _ _ Hm p vp Hp) as Hap.
+      rewrite (do_lit _ _ _ Hm p vp (Z.of_nat f) Hp); [now rewrite Zabs2Nat.id|].
       rewrite <- (gr_label _ _ Hg p Hap). exact Hlp. }
     subst vn vp. rewrite diff_go_tri in H. cbn [balance_or_children] in H. injection H as <-.
-    split; [exact Hok|apply grow_refl].
-  - destruct (balance_spec nx (diff_go [] cd) s s' Hok Hnx (in_table_false _ _ Etab)) as [Hok' [He Hs]]; [|exact H|].
+    right. left. split; [reflexivity|]. split; [exact Hnx|now exists f].
+  - destruct (balance_spec nx (diff_go [] cd) s s' Hok Hnx (in_table_false _ _ Etab)) as [Hok' [He [Hs Hb]]]; [| |exact H|].
     { intros c ms f Hin Hf. destruct (diff_go_In cd [] c ms f Hin Hf) as [_ [cv [Hcv Hfv]]].
       cbn [app] in Hcv. rewrite Forall_forall in Hcd.
-      exact (do_pos _ _ Hm (fst cv) (snd cv) f (Hcd cv Hcv) Hfv). }
-    split; [exact Hok'|]. now apply (balance_grow _ _ nx).
+      exact (do_pos _ _ _ Hm (fst cv) (snd cv) f (Hcd cv Hcv) Hfv). }
+    { intros c ms Hin. apply diff_go_fst in Hin. rewrite Hfst in Hin.
+      exact (proj2 (out_alive _ _ _ (proj1 (co_inv _ _ _ (proj1 Hok))) Hin)). }
+    right. right. split; [exact Hnx|]. split; [exact (in_table_false _ _ Etab)|]. split; [exact Hok'|].
+    split; [exact He|]. split; [exact Hs|]. now exists cd.
 Qed.
 
-Theorem pass3_grow s root s' : tables_ok s -> pass3 rc ord s root = Some s' ->
-  tables_ok s' /\ grow (ls_g s) (ls_g s').
+Lemma p3step_ok m s s' nx : tables_ok P st s -> p3step m s s' nx -> tables_ok P st s' /\ grow (ls_g s) (ls_g s').
+Proof.
+  intros Hok [[-> _]|[[-> _]|[Hnx [_ [Hok' [He [Hs _]]]]]]]; try (split; [exact Hok|apply grow_refl]).
+  split; [exact Hok'|]. now apply (balance_grow _ _ nx).
+Qed.
+
+Lemma pass3_body_spec g0 m s nx s' :
+  diffs_ok FOK g0 m -> tables_ok P st s -> grow g0 (ls_g s) ->
+  pass3_body rc ord m s nx = Some s' -> tables_ok P st s' /\ grow (ls_g s) (ls_g s').
+Proof. intros Hm Hok Hg H. exact (p3step_ok m s s' nx Hok (pass3_body_step g0 m s nx s' Hm Hok Hg H)). Qed.
+
+(* an invariant of the steps is an invariant of the traversal *)
+Theorem pass3_invariant (Q : lstate -> Prop) s root s' :
+  tables_ok P st s -> pass3 rc ord s root = Some s' -> Q s ->
+  (forall m s1 s2 nx, diffs_ok FOK (ls_g s) m -> tables_ok P st s1 -> grow (ls_g s) (ls_g s1) -> Q s1 ->
+                      p3step m s1 s2 nx -> Q s2) ->
+  Q s'.
+Proof.
+  intros Hok H HQ Hstep. unfold pass3 in H.
+  destruct (get_literal_diffs (ls_g s) root) as [m|] eqn:Em; [|discriminate].
+  pose proof (get_literal_diffs_ok FOK _ _ _ (fun z l Hz => P_abs l (co_pos _ _ _ (proj1 Hok) z l Hz)) Em) as Hm.
+  apply (dfs_fold_invariant _ _ (fun s1 => (tables_ok P st s1 /\ grow (ls_g s) (ls_g s1)) /\ Q s1)) in H; [exact (proj2 H)| |].
+  - intros s1 x s2 [[Hok1 Hg1] HQ1] Hb.
+    pose proof (pass3_body_step (ls_g s) m s1 x s2 Hm Hok1 Hg1 Hb) as Hst.
+    destruct (p3step_ok m s1 s2 x Hok1 Hst) as [Hok2 Hg2].
+    split; [split; [exact Hok2|exact (grow_trans _ _ _ Hg1 Hg2)]|]. exact (Hstep m s1 s2 x Hm Hok1 Hg1 HQ1 Hst).
+  - split; [split; [exact Hok|apply grow_refl]|exact HQ].
+Qed.
+
+(* the same with an invariant that may mention the table of get_literal_diffs *)
+Theorem pass3_invariant_m (Q : list (nat * list nat) -> lstate -> Prop) s root s' :
+  tables_ok P st s -> pass3 rc ord s root = Some s' ->
+  (forall m, get_literal_diffs (ls_g s) root = Some m -> Q m s) ->
+  (forall m s1 s2 nx, diffs_ok FOK (ls_g s) m -> tables_ok P st s1 -> grow (ls_g s) (ls_g s1) -> Q m s1 ->
+                      p3step m s1 s2 nx -> Q m s2) ->
+  exists m, get_literal_diffs (ls_g s) root = Some m /\ Q m s'.
+Proof.
+  intros Hok H HQ Hstep. unfold pass3 in H.
+  destruct (get_literal_diffs (ls_g s) root) as [m|] eqn:Em; [|discriminate].
+  exists m. split; [reflexivity|].
+  pose proof (get_literal_diffs_ok FOK _ _ _ (fun z l Hz => P_abs l (co_pos _ _ _ (proj1 Hok) z l Hz)) Em) as Hm.
+  apply (dfs_fold_invariant _ _ (fun s1 => (tables_ok P st s1 /\ grow (ls_g s) (ls_g s1)) /\ Q m s1)) in H; [exact (proj2 H)| |].
+  - intros s1 x s2 [[Hok1 Hg1] HQ1] Hb.
+    pose proof (pass3_body_step (ls_g s) m s1 x s2 Hm Hok1 Hg1 Hb) as Hst.
+    destruct (p3step_ok m s1 s2 x Hok1 Hst) as [Hok2 Hg2].
+    split; [split; [exact Hok2|exact (grow_trans _ _ _ Hg1 Hg2)]|]. exact (Hstep m s1 s2 x Hm Hok1 Hg1 HQ1 Hst).
+  - split; [split; [exact Hok|apply grow_refl]|now apply HQ].
+Qed.
+
+(* the same over the traversal state (stack, discovered, finished) *)
+Theorem pass3_invariant_st (Q : list (nat * list nat) -> lstate -> list nat -> list nat -> list nat -> Prop) s root s' :
+  tables_ok P st s -> pass3 rc ord s root = Some s' ->
+  (forall m, get_literal_diffs (ls_g s) root = Some m -> Q m s [root] [] []) ->
+  (forall m s1 nx rest disc fin, tables_ok P st s1 -> grow (ls_g s) (ls_g s1) -> Q m s1 (nx :: rest) disc fin ->
+     mem nx disc = false ->
+     Q m s1 (push_undiscovered (nx :: disc) (nx :: rest) (sg_out (ls_g s1) nx)) (nx :: disc) fin) ->
+  (forall m s1 nx rest disc fin, tables_ok P st s1 -> grow (ls_g s) (ls_g s1) -> Q m s1 (nx :: rest) disc fin ->
+     mem nx disc = true -> mem nx fin = true -> Q m s1 rest disc fin) ->
+  (forall m s1 s2 nx rest disc fin, diffs_ok FOK (ls_g s) m -> tables_ok P st s1 -> grow (ls_g s) (ls_g s1) ->
+     Q m s1 (nx :: rest) disc fin -> mem nx disc = true -> mem nx fin = false ->
+     p3step m s1 s2 nx -> Q m s2 rest disc (nx :: fin)) ->
+  exists m disc' fin', get_literal_diffs (ls_g s) root = Some m /\ Q m s' [] disc' fin'.
+Proof.
+  intros Hok H HQ Hdisc Hpop Hstep. unfold pass3 in H.
+  destruct (get_literal_diffs (ls_g s) root) as [m|] eqn:Em; [|discriminate].
+  pose proof (get_literal_diffs_ok FOK _ _ _ (fun z l Hz => P_abs l (co_pos _ _ _ (proj1 Hok) z l Hz)) Em) as Hm.
+  apply (dfs_fold_invariant_st _ _
+           (fun s1 stack disc fin => (tables_ok P st s1 /\ grow (ls_g s) (ls_g s1)) /\ Q m s1 stack disc fin)) in H.
+  - destruct H as [disc' [fin' [_ HQ']]]. now exists m, disc', fin'.
+  - intros s1 nx rest disc fin [[Hok1 Hg1] HQ1] Ed. split; [now split|]. now apply Hdisc.
+  - intros s1 nx rest disc fin [[Hok1 Hg1] HQ1] Ed Ef. split; [now split|]. now apply (Hpop m s1 nx).
+  - intros s1 nx rest disc fin s2 [[Hok1 Hg1] HQ1] Ed Ef Hb.
+    pose proof (pass3_body_step (ls_g s) m s1 nx s2 Hm Hok1 Hg1 Hb) as Hst.
+    destruct (p3step_ok m s1 s2 nx Hok1 Hst) as [Hok2 Hg2].
+    split; [split; [exact Hok2|exact (grow_trans _ _ _ Hg1 Hg2)]|]. exact (Hstep m s1 s2 nx rest disc fin Hm Hok1 Hg1 HQ1 Ed Ef Hst).
+  - split; [split; [exact Hok|apply grow_refl]|now apply HQ].
+Qed.
+
+Theorem pass3_grow s root s' : tables_ok P st s -> pass3 rc ord s root = Some s' ->
+  tables_ok P st s' /\ grow (ls_g s) (ls_g s').
 Proof.
   intros Hok H. unfold pass3 in H.
   destruct (get_literal_diffs (ls_g s) root) as [m|] eqn:Em; [|discriminate].
-  pose proof (get_literal_diffs_ok _ _ _ (co_pos _ (proj1 Hok)) Em) as Hm.
-  apply (dfs_fold_invariant _ _ (fun s1 => tables_ok s1 /\ grow (ls_g s) (ls_g s1))) in H; [exact H| |].
+  pose proof (get_literal_diffs_ok FOK _ _ _ (fun z l Hz => P_abs l (co_pos _ _ _ (proj1 Hok) z l Hz)) Em) as Hm.
+  apply (dfs_fold_invariant _ _ (fun s1 => tables_ok P st s1 /\ grow (ls_g s) (ls_g s1))) in H; [exact H| |].
   - intros s1 x s2 [Hok1 Hg1] Hb. destruct (pass3_body_spec (ls_g s) m s1 x s2 Hm Hok1 Hg1 Hb) as [Hok2 Hg2].
     split; [exact Hok2|]. exact (grow_trans _ _ _ Hg1 Hg2).
   - split; [exact Hok|apply grow_refl].
